@@ -99,8 +99,17 @@ type Case struct {
 	Ver uint16 `json:"ver,omitempty"`
 	Sib bool   `json:"sib,omitempty"`
 	Key HB     `json:"key,omitempty"`
+	// build: op = "" (get) | "iterate" | "prefixes"
+	Op       string `json:"op,omitempty"`
+	Prefetch uint16 `json:"prefetch,omitempty"`
+	Prefixes []HB   `json:"prefixes,omitempty"`
+	Limit    uint16 `json:"limit,omitempty"`
 	// verify
 	Src     string `json:"src,omitempty"`
+	// verify, sub-position proofs: the trusted hash is that of an inner node
+	Pos       HB     `json:"pos,omitempty"`        // hash of the inner node
+	PosDepth  int    `json:"pos_depth,omitempty"`  // bit depth of the pointer to it
+	PosPrefix string `json:"pos_prefix,omitempty"` // bits ("0"/"1") of every key below it (path + its label)
 	Keys    []HB   `json:"keys,omitempty"`
 	Mutants []Mut  `json:"mutants,omitempty"`
 	// remote
@@ -386,6 +395,78 @@ func (w *world) shape() shape {
 	}
 	rec(0, 0)
 	return sh
+}
+
+// innerNode: an internal node other than the root.
+type innerNode struct {
+	hash   []byte
+	depth  int    // bit depth of the pointer (bits consumed above the node's label)
+	prefix string // path ++ label, as "0"/"1"
+	keys   [][]byte
+}
+
+func bitsOf(b []byte, n int) string {
+	var sb strings.Builder
+	for i := 0; i < n && i < len(b)*8; i++ {
+		if b[i/8]&(1<<(7-uint(i%8))) != 0 {
+			sb.WriteByte('1')
+		} else {
+			sb.WriteByte('0')
+		}
+	}
+	return sb.String()
+}
+
+func (w *world) innerNodes() []innerNode {
+	rsp, err := w.tree.SyncIterate(ctx, &syncer.IterateRequest{Tree: w.treeID(), Key: []byte{}, Prefetch: 10000})
+	if err != nil {
+		panic(err)
+	}
+	es := decodeAll(rsp.Proof.Entries)
+	tab := table{}
+	var out []innerNode
+	var rec func(idx, depth int, path string) ([]byte, int)
+	rec = func(idx, depth int, path string) ([]byte, int) {
+		e := es[idx]
+		switch e.Kind {
+		case "nil":
+			return tab.add(nil), idx + 1
+		case "leaf":
+			return tab.add(leafPre(e.K, e.V)), idx + 1
+		case "int":
+			full := path + bitsOf(e.LB, int(e.BL))
+			d2 := depth + int(e.BL)
+			hlf := tab.add(nil)
+			if e.HasLf {
+				hlf = tab.add(leafPre(e.LK, e.LV))
+			}
+			hl, nx := rec(idx+1, d2, full)
+			hr, nx2 := rec(nx, d2, full)
+			var bl [2]byte
+			binary.LittleEndian.PutUint16(bl[:], e.BL)
+			pre := append([]byte{0x01}, bl[:]...)
+			pre = append(pre, e.LB...)
+			pre = append(pre, hlf...)
+			pre = append(pre, hl...)
+			pre = append(pre, hr...)
+			h := tab.add(pre)
+			if idx != 0 {
+				in := innerNode{hash: h, depth: depth, prefix: full}
+				for _, kv := range w.sorted {
+					if strings.HasPrefix(bitsOf(kv.K, len(kv.K)*8), full) {
+						in.keys = append(in.keys, kv.K)
+					}
+				}
+				out = append(out, in)
+			}
+			return h, nx2
+		}
+		panic("unexpected entry in a full proof")
+	}
+	if len(es) > 0 {
+		rec(0, 0, "")
+	}
+	return out
 }
 
 func countInternal(p *syncer.Proof) int {
@@ -1019,16 +1100,18 @@ func readPtr(ptr *node.Pointer, depth node.Depth, key node.Key) string {
 	return "U"
 }
 
-func verifyReal(w *world, m Mut) (v verdict) {
+func verifyReal(w *world, m Mut) (v verdict) { return verifyRealAt(w.root.Hash, m) }
+
+func verifyRealAt(trusted hash.Hash, m Mut) (v verdict) {
 	defer func() {
 		if r := recover(); r != nil {
 			v.viol = fmt.Sprintf("panic in VerifyProof: %v", r)
 		}
 	}()
 	var pv syncer.ProofVerifier
-	ptr, err1 := pv.VerifyProof(ctx, w.root.Hash, m.proof())
+	ptr, err1 := pv.VerifyProof(ctx, trusted, m.proof())
 	v.ptr = ptr
-	wl, err2 := pv.VerifyProofToWriteLog(ctx, w.root.Hash, m.proof())
+	wl, err2 := pv.VerifyProofToWriteLog(ctx, trusted, m.proof())
 	if (err1 == nil) != (err2 == nil) {
 		v.viol = fmt.Sprintf("VerifyProof and VerifyProofToWriteLog disagree: %v / %v", err1, err2)
 		return
@@ -1054,7 +1137,22 @@ func runVerify(c Case, sum *coqout.Summary, seen map[string]bool) groupResult {
 	tab := w.fullTable()
 	uni := universe(w, c.Keys)
 	single := func(m Mut) Case {
-		return Case{Kind: "verify", KVs: c.KVs, Src: c.Src, Keys: c.Keys, Mutants: []Mut{m}}
+		return Case{Kind: "verify", KVs: c.KVs, Src: c.Src, Keys: c.Keys, Mutants: []Mut{m}, Pos: c.Pos, PosDepth: c.PosDepth, PosPrefix: c.PosPrefix}
+	}
+	// the trusted hash: the root, or (sub-position proofs) the hash of an inner
+	// node, as cache.remoteSync uses ptr.Hash; then only keys below that node
+	// can be read, from bit depth PosDepth
+	trusted := w.root.Hash
+	sub := c.Pos != nil
+	if sub {
+		copy(trusted[:], c.Pos)
+		var below [][]byte
+		for _, k := range uni {
+			if strings.HasPrefix(bitsOf(k, len(k)*8), c.PosPrefix) {
+				below = append(below, k)
+			}
+		}
+		uni = below
 	}
 	var ms, outs []string
 	for _, m := range c.Mutants {
@@ -1063,9 +1161,9 @@ func runVerify(c Case, sum *coqout.Summary, seen map[string]bool) groupResult {
 		// tabulating with the other version too costs nothing and keeps the table
 		// independent of what the model decides
 		ms = append(ms, fmt.Sprintf("(%d, %s, %s)", m.V, coqBytes(m.Untrusted), coqEntries(es)))
-		v := verifyReal(w, m)
+		v := verifyRealAt(trusted, m)
 		key, _ := json.Marshal(m.Entries)
-		id := fmt.Sprintf("%x|%d|%x|%s", w.root.Hash[:], m.V, m.Untrusted, key)
+		id := fmt.Sprintf("%x|%d|%x|%s", trusted[:], m.V, m.Untrusted, key)
 		if !seen[id] && len(m.Entries) >= 2 {
 			seen[id] = true
 			sum.DistinctNontrivial++
@@ -1083,6 +1181,9 @@ func runVerify(c Case, sum *coqout.Summary, seen map[string]bool) groupResult {
 			outs = append(outs, "VRej")
 			// a rejected candidate must not feed a reader either
 			for _, k := range c.Keys {
+				if sub {
+					break
+				}
 				a, p := remoteGet(w.root, m.proof(), k)
 				if p != nil {
 					res.violations = append(res.violations, map[string]any{"what": fmt.Sprintf("panic in remote Get: %v", p), "case": single(m)})
@@ -1104,18 +1205,22 @@ func runVerify(c Case, sum *coqout.Summary, seen map[string]bool) groupResult {
 		// S: the returned subtree stands for the trusted root, and read directly
 		// (without any fetch) no key resolves contrary to the contents
 		for _, k := range uni {
-			if a := readPtr(v.ptr, 0, k); a != "U" && a != truth(w, k) {
+			if a := readPtr(v.ptr, node.Depth(c.PosDepth), k); a != "U" && a != truth(w, k) {
 				res.violations = append(res.violations, map[string]any{"what": fmt.Sprintf("accepted proof: in the subtree VerifyProof returned key %x resolves to %q, the tree says %q", k, a, truth(w, k)), "case": single(m)})
 				break
 			}
 		}
-		if h := v.ptr.GetHash(); !h.Equal(&w.root.Hash) {
-			res.violations = append(res.violations, map[string]any{"what": fmt.Sprintf("accepted proof: the subtree VerifyProof returned has hash %s, the trusted root is %s", h, w.root.Hash), "case": single(m)})
+		if h := v.ptr.GetHash(); !h.Equal(&trusted) {
+			res.violations = append(res.violations, map[string]any{"what": fmt.Sprintf("accepted proof: the subtree VerifyProof returned has hash %s, the trusted root is %s", h, trusted), "case": single(m)})
 		}
-		for _, kv := range w.sorted {
-			if readPtr(v.ptr, 0, node.Key(kv.K)) == "A" {
-				sum.Count("accepted-lie", "present key absent")
+		if sub {
+			sum.Count("verdict-subposition", "accepted")
+			var wl []string
+			for _, e := range v.wl {
+				wl = append(wl, fmt.Sprintf("(%s, %s)", coqBytes(e.K), coqBytes(e.V)))
 			}
+			outs = append(outs, fmt.Sprintf("(VAcc %s [])", coqout.List(wl)))
+			continue
 		}
 		// S: through a remote-backed tree no key resolves contrary to the contents
 		known := 0
@@ -1151,9 +1256,11 @@ func runVerify(c Case, sum *coqout.Summary, seen map[string]bool) groupResult {
 	}
 	var keys []string
 	for _, k := range c.Keys {
-		keys = append(keys, coqBytes(k))
+		if !sub {
+			keys = append(keys, coqBytes(k))
+		}
 	}
-	res.term = fmt.Sprintf("(CVerify %s %s %s %s, OVerify %s)", tab.coq(), coqBytes(w.root.Hash[:]), coqout.List(keys), coqout.List(ms), coqout.List(outs))
+	res.term = fmt.Sprintf("(CVerify %s %s %s %s, OVerify %s)", tab.coq(), coqBytes(trusted[:]), coqout.List(keys), coqout.List(ms), coqout.List(outs))
 	return res
 }
 
@@ -1169,7 +1276,61 @@ func toRaw(es []HB) [][]byte {
 
 // ---------- build cases ----------
 
+// runBuildIter: the proofs SyncIterate / SyncGetPrefixes build vs the model builders.
+func runBuildIter(c Case, sum *coqout.Summary) (term string, viols []map[string]any) {
+	w := buildTree(c.KVs)
+	defer w.tree.Close()
+	var rsp *syncer.ProofResponse
+	var err error
+	var kvs []string
+	for _, kv := range c.KVs {
+		kvs = append(kvs, fmt.Sprintf("(%s, %s)", coqBytes(kv.K), coqBytes(kv.V)))
+	}
+	var head string
+	if c.Op == "iterate" {
+		rsp, err = w.tree.SyncIterate(ctx, &syncer.IterateRequest{Tree: w.treeID(), Key: nn(c.Key), Prefetch: c.Prefetch, ProofVersion: c.Ver})
+		head = fmt.Sprintf("CIter %s %s %d %s %d%%nat", w.fullTable().coq(), coqout.List(kvs), c.Ver, coqBytes(c.Key), c.Prefetch)
+		sum.Count("iterate-proof", fmt.Sprintf("v%d prefetch=%d", c.Ver, c.Prefetch))
+	} else {
+		var ps [][]byte
+		var cps []string
+		for _, p := range c.Prefixes {
+			ps = append(ps, nn(p))
+			cps = append(cps, coqBytes(p))
+		}
+		rsp, err = w.tree.SyncGetPrefixes(ctx, &syncer.GetPrefixesRequest{Tree: w.treeID(), Prefixes: ps, Limit: c.Limit, ProofVersion: c.Ver})
+		head = fmt.Sprintf("CPrefixes %s %s %d %s %d%%nat", w.fullTable().coq(), coqout.List(kvs), c.Ver, coqout.List(cps), c.Limit)
+		sum.Count("prefixes-proof", fmt.Sprintf("v%d n=%d limit=%d", c.Ver, len(ps), c.Limit))
+	}
+	if err != nil {
+		return "", []map[string]any{{"what": c.Op + " failed: " + err.Error(), "case": c}}
+	}
+	p := copyProof(&rsp.Proof)
+	sum.Evaluations++
+	sum.Count(c.Op+"-proof-entries", bucket(len(p.Entries)))
+	var pv syncer.ProofVerifier
+	ptr, err := pv.VerifyProof(ctx, w.root.Hash, copyProof(p))
+	if err != nil {
+		viols = append(viols, map[string]any{"what": "honest " + c.Op + " proof rejected: " + err.Error(), "case": c})
+	} else if c.Op == "iterate" {
+		// S (completeness): the items the full replica yields from Key are readable from the proof
+		j := sort.Search(len(w.sorted), func(i int) bool { return bytes.Compare(w.sorted[i].K, c.Key) >= 0 })
+		for s := 0; s <= int(c.Prefetch) && j+s < len(w.sorted); s++ {
+			kv := w.sorted[j+s]
+			if a := readPtr(ptr, 0, node.Key(kv.K)); a != "F"+string(kv.V) {
+				viols = append(viols, map[string]any{"what": fmt.Sprintf("honest iterate proof does not cover item %d (%x): %q", s, []byte(kv.K), a), "case": c})
+				break
+			}
+		}
+	}
+	term = fmt.Sprintf("(%s, OBuild %s %s)", head, coqBytes(w.root.Hash[:]), coqEntries(decodeAll(p.Entries)))
+	return
+}
+
 func runBuild(c Case, sum *coqout.Summary) (term string, viols []map[string]any) {
+	if c.Op != "" {
+		return runBuildIter(c, sum)
+	}
 	w := buildTree(c.KVs)
 	defer w.tree.Close()
 	rsp, err := w.tree.SyncGet(ctx, &syncer.GetRequest{Tree: w.treeID(), Key: nn(c.Key), IncludeSiblings: c.Sib, ProofVersion: c.Ver})
@@ -1518,7 +1679,20 @@ func main() {
 			for _, v := range viols {
 				what := v["what"].(string) + fmt.Sprintf(" [%s; node cache %d nodes / %d value bytes; largest response %d internal nodes, longest path %d, tree %d internal nodes]",
 					info.class(), c.NodeCap, c.ValCap, info.maxResp, info.sh.pathDepth, info.sh.internal)
-				if info.honestOnly && info.belowResponsePlusPath() {
+				// a corrupt-peer session under such a cache counts as the same finding only
+				// if the identical session (same seed, same corruption) is clean with an
+				// unbounded cache, i.e. the failure needs the small cache and not the peer
+				needsSmallCache := false
+				if !info.honestOnly && info.belowResponsePlusPath() {
+					x := c
+					x.NodeCap, x.ValCap = 0, 0
+					if v2, _ := runRemote(x, coqout.NewSummary("")); len(v2) == 0 {
+						needsSmallCache = true
+						what += " [the same session with an unbounded cache is clean]"
+						sum.Count("remote-session-failed-after-shrink", "corrupt-peer/cache<response+path, clean with unbounded cache")
+					}
+				}
+				if info.belowResponsePlusPath() && (info.honestOnly || needsSmallCache) {
 					// the documented shape of the known finding: honest responses only and
 					// fewer node slots than the largest response plus the path
 					sum.Findings = append(sum.Findings, coqout.Finding{Key: cacheFindingKey, What: what, Replay: map[string]any{"case": c}})
@@ -1576,6 +1750,17 @@ func main() {
 			}
 			runCase(c)
 		}
+		// (a') iterate / prefixes builder correspondence
+		for j := 0; j < 3; j++ {
+			runCase(Case{Kind: "build", Op: "iterate", KVs: kvs, Ver: uint16(cr.Intn(2)), Key: genQueries(cr, w, 4)[cr.Intn(4)], Prefetch: uint16(cr.Intn(11))})
+		}
+		for j := 0; j < 2; j++ {
+			var ps []HB
+			for x := 0; x < 1+cr.Intn(3); x++ {
+				ps = append(ps, genQueries(cr, w, 4)[cr.Intn(4)])
+			}
+			runCase(Case{Kind: "build", Op: "prefixes", KVs: kvs, Ver: uint16(cr.Intn(2)), Prefixes: ps, Limit: uint16(cr.Intn(11))})
+		}
 		// (b)(c) candidates
 		srcs := w.honest(cr, queries)
 		keys := append([]HB{}, queries...)
@@ -1598,6 +1783,49 @@ func main() {
 			runCase(c)
 			b := base
 			last = &b
+		}
+		// (b') sub-position proofs: Position = an inner node on the key's path, so the
+		// proof is anchored at (and trusted for) that node's hash
+		if ins := w.innerNodes(); len(ins) > 0 {
+			in := ins[cr.Intn(len(ins))]
+			var q []byte
+			if len(in.keys) > 0 && cr.Chance(70) {
+				q = nn(in.keys[cr.Intn(len(in.keys))])
+			} else { // an absent key below the node
+				nb := (len(in.prefix) + 7) / 8
+				q = make([]byte, nb+1)
+				for i, ch := range in.prefix {
+					if ch == '1' {
+						q[i/8] |= 1 << (7 - uint(i%8))
+					}
+				}
+				q[nb] = alphabet[cr.Intn(4)]
+			}
+			ver := uint16(cr.Intn(2))
+			sib := cr.Chance(50)
+			var ph hash.Hash
+			copy(ph[:], in.hash)
+			rsp, err := w.tree.SyncGet(ctx, &syncer.GetRequest{Tree: syncer.TreeID{Root: w.root, Position: ph}, Key: q, IncludeSiblings: sib, ProofVersion: ver})
+			if err != nil {
+				panic(err)
+			}
+			name := fmt.Sprintf("subposition get v%d sib=%v", ver, sib)
+			base := mutOf("honest: "+name, &rsp.Proof)
+			sc := Case{Kind: "verify", KVs: kvs, Src: name, Keys: []HB{q}, Pos: in.hash, PosDepth: in.depth, PosPrefix: in.prefix}
+			if !rsp.Proof.UntrustedRoot.Equal(&ph) {
+				sum.Count("subposition", "anchored at the root (key leaves the node's subtree)")
+				sum.Violations = append(sum.Violations, map[string]any{"what": "SyncGet with Position on the key's path returned a proof that is not anchored at Position", "case": Case{Kind: "verify", KVs: kvs, Src: name, Keys: []HB{q}, Pos: in.hash, PosDepth: in.depth, PosPrefix: in.prefix, Mutants: []Mut{base}}})
+			} else {
+				sum.Count("subposition", "anchored at Position")
+				if v := verifyRealAt(ph, base); !v.accepted {
+					sum.Violations = append(sum.Violations, map[string]any{"what": "honest sub-position proof rejected for the position's hash", "case": Case{Kind: "verify", KVs: kvs, Src: name, Keys: []HB{q}, Pos: in.hash, PosDepth: in.depth, PosPrefix: in.prefix, Mutants: []Mut{base}}})
+				} else if a := readPtr(v.ptr, node.Depth(in.depth), q); a != truth(w, q) {
+					sum.Violations = append(sum.Violations, map[string]any{"what": fmt.Sprintf("honest sub-position proof does not resolve its key: %q, the tree says %q", a, truth(w, q)), "case": Case{Kind: "verify", KVs: kvs, Src: name, Keys: []HB{q}, Pos: in.hash, PosDepth: in.depth, PosPrefix: in.prefix, Mutants: []Mut{base}}})
+				}
+				sc.Mutants = append(append([]Mut{base}, mutate(cr, base, prev, *nmut)...), forged(base)...)
+				sum.Count("honest-proof", "subposition "+fmt.Sprintf("v%d", ver))
+				runCase(sc)
+			}
 		}
 		prev = last
 		w.tree.Close()
